@@ -7,9 +7,9 @@ C20 — NATS server shutdown drains: accepted requests answered, none lost or du
   Serve return (no deadlock) even when the work queue is full."
 
 Model: `FV.NS.step` (FV/Model/NatsServer.lean) — broker side of the subscription, the nats.go
-subscription (pending FIFO, one callback goroutine, barrier), `workC` of capacity q, w workers,
+subscriptions — one per SUBJECT, each with its pending FIFO and its own callback goroutine — and the barrier, `workC` of capacity q, w workers,
 the program counters of `Serve` and `Stop`. "For all schedules and arrival patterns" is "for all
-action lists": `Reachable w q s` is `∃ as, run (init w q) as = some s`, where the adversary's
+action lists": `Reachable w q k s` is `∃ as, run (init w q k) as = some s` (w workers, queue length q, k subjects), where the adversary's
 actions (`arrive m` for any fresh request id m while the broker still has the subscription,
 `stopCall`) may appear anywhere.
 
@@ -32,32 +32,58 @@ import FV.Generated.Locks
 namespace FV.C20
 open FV.NS
 
+
+/-- Helper: nothing is held by subscriptions whose callback goroutines are all idle. -/
+theorem flat_subCb_idle (l : List Sub) (h : ∀ sb ∈ l, sb.cb = .idle) : flat subCb l = [] := by
+  induction l with
+  | nil => rfl
+  | cons a t ih =>
+    have ha := h a List.mem_cons_self
+    simp [flat, subCb, ha, cbMsgs, ih (fun x hx => h x (List.mem_cons_of_mem _ hx))]
+
+theorem flat_subAll_empty (l : List Sub) (h : ∀ sb ∈ l, sb.inflight = [] ∧ sb.pending = [] ∧ sb.cb = .idle) :
+    flat subAll l = [] := by
+  induction l with
+  | nil => rfl
+  | cons a t ih =>
+    obtain ⟨h1, h2, h3⟩ := h a List.mem_cons_self
+    simp [flat, subAll, h1, h2, h3, cbMsgs, ih (fun x hx => h x (List.mem_cons_of_mem _ hx))]
+
+theorem busy_all_exited (ws : List Wk) (h : ∀ x ∈ ws, x = .exited) : busyList ws = [] := by
+  induction ws with
+  | nil => rfl
+  | cons a t ih =>
+    have ha := h a List.mem_cons_self
+    subst ha
+    simp [busyList, flat, wkMsgs]
+    exact ih (fun x hx => h x (List.mem_cons_of_mem _ hx))
+
 /-- No request is processed twice — in every reachable state, for every worker count (also 0),
-queue length, arrival sequence, schedule, with or without a connection fault. Neither is a reply
-published twice, and nothing is processed that did not arrive. -/
-theorem c20_at_most_once (w q : Nat) (s : Sys) (hr : Reachable w q s) (m : Msg) :
+queue length, number of subjects, arrival sequence, schedule, with or without a connection fault.
+Neither is a reply published twice, and nothing is processed that did not arrive. -/
+theorem c20_at_most_once (w q k : Nat) (s : Sys) (hr : Reachable w q k s) (m : Msg) :
     s.processed.count m ≤ 1 ∧ s.replied.count m ≤ s.processed.count m ∧
     (m ∈ s.processed → m ∈ s.arrived) := by
   have hi := reachable_sinv hr
   have h1 := hi.cnt m
   have h2 := hi.nodup m
   have h3 := hi.proc m
-  simp only [loc, held, List.count_append] at h1
+  simp only [loc, List.count_append] at h1
   refine ⟨by omega, by omega, ?_⟩
   intro hm
   have : 0 < s.processed.count m := List.count_pos_iff.mpr hm
   exact List.count_pos_iff.mp (by omega)
 
-/-- State form of exactly-once: when `Serve` has returned, every request the server took over
-(the handler reached its send to the work queue) has been processed exactly once and its reply
-handed to the connection exactly once, and nothing is left with the handler, in `workC` or in a
-worker — with or without a connection fault. Without a fault this covers EVERY request the
-broker ever accepted for the subscription: nothing is in flight, pending or dropped. -/
-theorem c20_exactly_once_all (w q : Nat) (hw : 1 ≤ w) (s : Sys) (hr : Reachable w q s)
+/-- State form of exactly-once: when `Serve` has returned, every request the server took over — on
+ANY subject (a handler reached its send to the work queue) — has been processed exactly once and
+its reply handed to the connection exactly once, and nothing is left with a handler, in `workC` or
+in a worker — with or without a connection fault. Without a fault this covers EVERY request the
+broker ever accepted for any of the subscriptions: nothing is in flight, pending or dropped. -/
+theorem c20_exactly_once_all (w q k : Nat) (hw : 1 ≤ w) (s : Sys) (hr : Reachable w q k s)
     (hret : s.serve = .returned) :
     (∀ m ∈ s.handed, s.processed.count m = 1 ∧ s.replied.count m = 1) ∧
-    s.cb = .idle ∧ s.workC = [] ∧ (∀ x ∈ s.workers, x = .exited) ∧
-    (s.faulty = false → s.inflight = [] ∧ s.pending = [] ∧ s.dropped = [] ∧
+    (∀ sb ∈ s.subs, sb.cb = .idle) ∧ s.workC = [] ∧ (∀ x ∈ s.workers, x = .exited) ∧
+    (s.faulty = false → (∀ sb ∈ s.subs, sb.inflight = [] ∧ sb.pending = []) ∧ s.dropped = [] ∧
       ∀ m ∈ s.arrived, s.processed.count m = 1 ∧ s.replied.count m = 1) := by
   have hi := reachable_sinv hr
   have hlen := (reachable_params hr).1
@@ -72,66 +98,60 @@ theorem c20_exactly_once_all (w q : Nat) (hw : 1 ≤ w) (s : Sys) (hr : Reachabl
       have := hall a (by rw [hws]; exact List.mem_cons_self)
       rw [this]; exact List.mem_cons_self
   have hq := (hi.ex hex).2
-  have hbusy : busyList s.workers = [] := by
-    have : ∀ ws : List Wk, (∀ x ∈ ws, x = .exited) → busyList ws = [] := by
-      intro ws
-      induction ws with
-      | nil => intro _; rfl
-      | cons a t ih =>
-        intro h
-        have ha := h a List.mem_cons_self
-        subst ha
-        simp [busyList, wkMsgs, ih (fun x hx => h x (List.mem_cons_of_mem _ hx))]
-    exact this _ hall
+  have hbusy : busyList s.workers = [] := busy_all_exited _ hall
+  have hcbs : flat subCb s.subs = [] := flat_subCb_idle _ hcb
   have key : ∀ m, 0 < s.handed.count m → s.processed.count m = 1 ∧ s.replied.count m = 1 := by
     intro m h4
     have h1 := hi.cnt m
     have h2 := hi.nodup m
     have h3 := hi.proc m
     have h5 := hi.hcnt m
-    simp only [loc, held, hcb, hq, hbusy, cbMsgs, List.count_append, List.count_nil] at h1 h3 h5
+    simp only [loc, held, hcbs, hq, hbusy, List.count_append, List.count_nil] at h1 h3 h5
     omega
   refine ⟨fun m hm => key m (List.count_pos_iff.mpr hm), hcb, hq, hall, ?_⟩
   intro hf
   have hinf := hi.infl hf (by omega)
-  have hpend := (hi.pend hf (by omega)).1
+  have hpend := hi.pend hf (by omega)
   have hdrp := hi.drp hf
-  refine ⟨hinf, hpend, hdrp, ?_⟩
+  have hempty : flat subAll s.subs = [] :=
+    flat_subAll_empty _ (fun sb hsb => ⟨hinf sb hsb, (hpend sb hsb).1, (hpend sb hsb).2⟩)
+  refine ⟨fun sb hsb => ⟨hinf sb hsb, (hpend sb hsb).1⟩, hdrp, ?_⟩
   intro m hm
   apply key
   have h1 := hi.cnt m
   have h5 := hi.hcnt m
   have h4 : 0 < s.arrived.count m := List.count_pos_iff.mpr hm
-  simp only [loc, hinf, hpend, hdrp, List.count_append, List.count_nil] at h1
+  simp only [loc, held, hempty, hcbs, hdrp, List.count_append, List.count_nil] at h1 h5
   omega
 
 /-- The property as stated: take ANY run in which `Stop` is called at some point (`as₁`, then
-`stopCall`, then `as₂`, with arbitrary arrivals, scheduling and possibly a connection fault before
-or after). If `Serve` has returned at the end, every request the server had taken over when `Stop`
-was called has been processed exactly once and its reply handed to the connection exactly once;
-and if no fault happened, so has every request the broker had accepted when `Stop` was called. -/
-theorem c20_exactly_once (w q : Nat) (hw : 1 ≤ w) (as₁ as₂ : List Action) (s₁ s₂ s : Sys)
-    (h₁ : run (init w q) as₁ = some s₁) (hstop : step s₁ .stopCall = some s₂) (h₂ : run s₂ as₂ = some s)
+`stopCall`, then `as₂`, with arbitrary arrivals on any subject, scheduling and possibly a connection
+fault before or after). If `Serve` has returned at the end, every request the server had taken over
+when `Stop` was called has been processed exactly once and its reply handed to the connection
+exactly once; and if no fault happened, so has every request the broker had accepted — on any
+subject — when `Stop` was called. -/
+theorem c20_exactly_once (w q k : Nat) (hw : 1 ≤ w) (as₁ as₂ : List Action) (s₁ s₂ s : Sys)
+    (h₁ : run (init w q k) as₁ = some s₁) (hstop : step s₁ .stopCall = some s₂) (h₂ : run s₂ as₂ = some s)
     (hret : s.serve = .returned) :
     (∀ m ∈ s₁.handed, s.processed.count m = 1 ∧ s.replied.count m = 1) ∧
     (s.faulty = false → ∀ m ∈ s₁.arrived, s.processed.count m = 1 ∧ s.replied.count m = 1) := by
-  have hr₁ : Reachable w q s₁ := ⟨as₁, h₁⟩
-  have hr : Reachable w q s := reachable_run (reachable_step hr₁ hstop) h₂
-  have hall := c20_exactly_once_all w q hw s hr hret
+  have hr₁ : Reachable w q k s₁ := ⟨as₁, h₁⟩
+  have hr : Reachable w q k s := reachable_run (reachable_step hr₁ hstop) h₂
+  have hall := c20_exactly_once_all w q k hw s hr hret
   constructor
   · intro m hm
     exact hall.1 m ((run_mono h₂).2.2.2.1 m ((step_mono hstop).2.2.2.1 m hm))
   · intro hf m hm
-    exact (hall.2.2.2.2 hf).2.2.2 m ((run_mono h₂).2.2.1 m ((step_mono hstop).2.2.1 m hm))
+    exact (hall.2.2.2.2 hf).2.2 m ((run_mono h₂).2.2.1 m ((step_mono hstop).2.2.1 m hm))
 
 /-- Nothing that arrives after `Stop` returned is processed: once `Stop` has its result after an
-undisturbed drain (no fault so far: `Stop` returns nil) the broker has processed the UNSUB — no
-arrival is accepted in that state or in any later one, whatever happens later, so the set of
-accepted requests is frozen, and only accepted requests are ever processed. -/
-theorem c20_none_after_stop (w q : Nat) (s : Sys) (hr : Reachable w q s)
+undisturbed drain (no fault so far: `Stop` returns nil) the broker has processed the UNSUBs — no
+arrival is accepted on any subject in that state or in any later one, whatever happens later, so
+the set of accepted requests is frozen, and only accepted requests are ever processed. -/
+theorem c20_none_after_stop (w q k : Nat) (s : Sys) (hr : Reachable w q k s)
     (hst : s.stop = .gotResult ∨ s.stop = .returned) (hnf : s.faulty = false)
     (as : List Action) (s' : Sys) (h : run s as = some s') :
-    (∀ m, step s' (.arrive m) = none) ∧ s'.arrived = s.arrived ∧ (∀ m ∈ s'.processed, m ∈ s.arrived) := by
+    (∀ j m, step s' (.arrive j m) = none) ∧ s'.arrived = s.arrived ∧ (∀ m ∈ s'.processed, m ∈ s.arrived) := by
   have hi := reachable_sinv hr
   have hinact : s.active = false := by
     cases hact : s.active with
@@ -158,64 +178,76 @@ theorem c20_none_after_stop (w q : Nat) (s : Sys) (hr : Reachable w q s)
         exact ⟨this.1.trans e1, this.2⟩
       · cases h
   have hk := hkeep as s s' hinact h
-  have hr' : Reachable w q s' := reachable_run hr h
+  have hr' : Reachable w q k s' := reachable_run hr h
   refine ⟨?_, hk.1, ?_⟩
-  · intro m; simp [step, hk.2]
+  · intro j m; simp only [step]; split <;> simp [hk.2]
   · intro m hm
     rw [← hk.1]
-    exact (c20_at_most_once w q s' hr' m).2.2 hm
+    exact (c20_at_most_once w q k s' hr' m).2.2 hm
 
 /-- `close(workC)` never happens under a send, with or without a connection fault: Serve closes
-only when no handler is inside its send (`sendMu`), and once `workC` is closed no handler enters
-it (`cbStart` turns the request away), so the panic flag is never set and `handlerEnqueue` is not
-enabled in any reachable closed state. Without a fault nothing is even left to turn away: the
-close happens with nothing pending or in flight. -/
-theorem c20_no_send_on_closed (w q : Nat) (s : Sys) (hr : Reachable w q s) :
+only when NO handler — of any subscription — is inside its send (`sendMu`), and once `workC` is
+closed no handler enters it (`cbStart` turns the request away), so the panic flag is never set and
+`handlerEnqueue` is not enabled for any subscription in any reachable closed state. Without a fault
+nothing is even left to turn away: the close happens with nothing pending or in flight anywhere. -/
+theorem c20_no_send_on_closed (w q k : Nat) (s : Sys) (hr : Reachable w q k s) :
     s.panicked = false ∧
-    (s.closed = true → s.cb = .idle ∧ step s .handlerEnqueue = none) ∧
-    (∀ s', step s .closeWorkC = some s' → s.cb = .idle) ∧
-    (s.faulty = false → s.closed = true → s.pending = [] ∧ s.inflight = [] ∧ s.active = false ∧ s.dropped = []) := by
+    (s.closed = true → (∀ sb ∈ s.subs, sb.cb = .idle) ∧ ∀ j, step s (.handlerEnqueue j) = none) ∧
+    (∀ s', step s .closeWorkC = some s' → ∀ sb ∈ s.subs, sb.cb = .idle) ∧
+    (s.faulty = false → s.closed = true →
+      (∀ sb ∈ s.subs, sb.pending = [] ∧ sb.inflight = []) ∧ s.active = false ∧ s.dropped = []) := by
   have hi := reachable_sinv hr
   refine ⟨hi.pan, ?_, ?_, ?_⟩
   · intro hc
     have h := hi.cidle hc
-    exact ⟨h, by simp [step, h]⟩
+    refine ⟨h, ?_⟩
+    intro j
+    simp only [step]
+    split
+    · rename_i sb hsb
+      have := h sb (List.mem_of_getElem? hsb)
+      simp [this]
+    · rfl
   · intro s' hs
     simp only [step] at hs
     split at hs
-    · rename_i h; exact h.2 hi.gd
+    · rename_i h
+      have := h.2 hi.gd
+      intro sb hsb
+      have := List.all_eq_true.mp this sb hsb
+      simpa using this
     · cases hs
   · intro hf hc
     have h5 := hi.clo.mp hc
-    refine ⟨(hi.pend hf (by omega)).1, hi.infl hf (by omega), ?_, hi.drp hf⟩
+    refine ⟨fun sb hsb => ⟨(hi.pend hf (by omega) sb hsb).1, hi.infl hf (by omega) sb hsb⟩, ?_, hi.drp hf⟩
     cases hact : s.active with
     | false => rfl
     | true => have := (hi.act hf).mp hact; omega
 
 /-- No deadlock: in every reachable state in which `Stop` has been called and `Serve` or `Stop`
 has not returned yet, some action of the system itself (not an arrival, not a fault, not the user)
-is enabled — for every w ≥ 1 and every q, with or without a connection fault, in particular with
-the queue full and the handler blocked in the callback (then a worker can move: `workC` is closed
-only after the handler is out of its send), and with workers queueing for the write mutex (its
-holder can always move). -/
-theorem c20_no_deadlock (w q : Nat) (hw : 1 ≤ w) (s : Sys) (hr : Reachable w q s)
+is enabled — for every w ≥ 1, every q and every number of subjects, with or without a connection
+fault, in particular with the queue full and handlers of several subscriptions blocked in their
+callbacks (then a worker can move: `workC` is closed only after every handler is out of its send),
+and with workers queueing for the write mutex (its holder can always move). -/
+theorem c20_no_deadlock (w q k : Nat) (hw : 1 ≤ w) (s : Sys) (hr : Reachable w q k s)
     (hcalled : s.stop ≠ .notCalled) (hnot : ¬ (s.serve = .returned ∧ s.stop = .returned)) :
     ∃ a, a.isSystem = true ∧ (step s a).isSome = true :=
-  progress s (reachable_sinv hr) (reachable_params hr).2.2.2 (by rw [(reachable_params hr).1]; exact hw) hcalled hnot
+  progress s (reachable_sinv hr) (reachable_params hr).2.2.2.1 (by rw [(reachable_params hr).1]; exact hw) hcalled hnot
 
 /-- The write mutex is released on every path: whenever a worker carries a request (handler
 running, waiting for the mutex, holding it in any of its three states, publishing), some worker
 step is enabled — its own, or that of the holder it waits for. -/
-theorem c20_write_mutex_never_wedges (w q : Nat) (s : Sys) (hr : Reachable w q s) (i : Nat) (u : Wk)
+theorem c20_write_mutex_never_wedges (w q k : Nat) (s : Sys) (hr : Reachable w q k s) (i : Nat) (u : Wk)
     (hu : s.workers[i]? = some u) (h1 : u ≠ .idle) (h2 : u ≠ .exited) :
     ∃ a, a.isWorker = true ∧ (step s a).isSome = true := by
-  obtain ⟨a, ha, _, hen⟩ := worker_progress s (reachable_sinv hr) (reachable_params hr).2.2.2 i u hu h1 h2
+  obtain ⟨a, ha, _, hen⟩ := worker_progress s (reachable_sinv hr) (reachable_params hr).2.2.2.1 i u hu h1 h2
   exact ⟨a, ha, hen⟩
 
 /-- Every worker eventually returns to idle: in a reachable state in which no worker step is
 enabled any more, every worker is at the head of its loop (idle) or has exited. (Worker steps
 strictly decrease `mu`, so this state is reached after finitely many of them.) -/
-theorem c20_workers_return_to_idle (w q : Nat) (s : Sys) (hr : Reachable w q s)
+theorem c20_workers_return_to_idle (w q k : Nat) (s : Sys) (hr : Reachable w q k s)
     (hmax : ∀ a, a.isWorker = true → step s a = none) :
     ∀ (i : Nat) (u : Wk), s.workers[i]? = some u → u = .idle ∨ u = .exited := by
   intro i u hu
@@ -223,25 +255,28 @@ theorem c20_workers_return_to_idle (w q : Nat) (s : Sys) (hr : Reachable w q s)
   · exact Or.inl h1
   · by_cases h2 : u = .exited
     · exact Or.inr h2
-    · obtain ⟨a, ha, hen⟩ := c20_write_mutex_never_wedges w q s hr i u hu h1 h2
+    · obtain ⟨a, ha, hen⟩ := c20_write_mutex_never_wedges w q k s hr i u hu h1 h2
       rw [hmax a ha] at hen; cases hen
 
-/-- Stop's drain waits for the barrier, whatever the high watermark: the model has no timeout on the
-barrier wait (the watermark only makes the code log a warning) — the ONLY way `Serve` leaves the wait
-is the barrier firing, or, after a connection fault, the drain step failing. No builder option
-(watermark, queue length, worker count, queue group, event handlers) is a parameter of `step` other
-than `w` and `q`, for which all theorems are quantified. -/
-theorem c20_only_barrier_ends_wait (s s' : Sys) (a : Action) (hs : step s a = some s')
+/-- Stop's drain waits for the barrier of EVERY subscription, whatever the high watermark: the model
+has no timeout on the barrier wait (the watermark only makes the code log a warning) — the ONLY way
+`Serve` leaves the wait is the barrier firing, which needs the pending queue of every subject empty
+and every callback goroutine idle, or, after a connection fault, the drain step failing. No builder
+option (watermark, queue group, event handlers) is a parameter of `step`; worker count, queue length
+and the number of subjects are, and all theorems are quantified over them. -/
+theorem c20_only_barrier_ends_wait (s s' : Sys) (a : Action) (hs : step s a = some s') (hlo : s.lastOnly = false)
     (hw : s.serve = .barrierWait) (hl : s'.serve ≠ .barrierWait) :
-    (a = .barrierFires ∧ s.pending = [] ∧ s.cb = .idle) ∨ (a = .drainFail ∧ s.faulty = true) := by
-  cases a <;> simp only [step] at hs <;> (repeat' split at hs) <;> cases hs <;> simp_all
+    (a = .barrierFires ∧ ∀ sb ∈ s.subs, sb.pending = [] ∧ sb.cb = .idle) ∨ (a = .drainFail ∧ s.faulty = true) := by
+  cases a <;> simp only [step] at hs <;> (repeat' split at hs) <;> cases hs <;>
+    simp_all [drained, Sub.quiet, List.all_eq_true]
 
 /-- State form: when `Stop` has its result and no fault has happened (Stop returns nil), nothing is
-pending in the subscription, in flight at the broker, or with the handler, however long that took:
-every request the broker had accepted is in the work queue, with a worker, or answered. -/
-theorem c20_drain_waits_for_barrier (w q : Nat) (s : Sys) (hr : Reachable w q s)
+pending in ANY subscription, in flight at the broker, or with a handler, however long that took:
+every request the broker had accepted, on whatever subject, is in the work queue, with a worker, or
+answered. -/
+theorem c20_drain_waits_for_barrier (w q k : Nat) (s : Sys) (hr : Reachable w q k s)
     (hst : s.stop = .gotResult ∨ s.stop = .returned) (hnf : s.faulty = false) :
-    s.pending = [] ∧ s.inflight = [] ∧ s.cb = .idle ∧ s.dropped = [] ∧
+    (∀ sb ∈ s.subs, sb.pending = [] ∧ sb.inflight = [] ∧ sb.cb = .idle) ∧ s.dropped = [] ∧
     ∀ m ∈ s.arrived, m ∈ s.workC ∨ m ∈ busyList s.workers ∨ m ∈ s.replied := by
   have hi := reachable_sinv hr
   have h4 : 4 < rank s.serve := by
@@ -253,11 +288,13 @@ theorem c20_drain_waits_for_barrier (w q : Nat) (s : Sys) (hr : Reachable w q s)
   have hp := hi.pend hnf (by omega)
   have hin := hi.infl hnf (by omega)
   have hd := hi.drp hnf
-  refine ⟨hp.1, hin, hp.2, hd, ?_⟩
+  have hempty : flat subAll s.subs = [] :=
+    flat_subAll_empty _ (fun sb hsb => ⟨hin sb hsb, (hp sb hsb).1, (hp sb hsb).2⟩)
+  refine ⟨fun sb hsb => ⟨(hp sb hsb).1, hin sb hsb, (hp sb hsb).2⟩, hd, ?_⟩
   intro m hm
   have h1 := hi.cnt m
   have h2 : 0 < s.arrived.count m := List.count_pos_iff.mpr hm
-  simp only [loc, held, hp.1, hp.2, hin, hd, cbMsgs, List.count_append, List.count_nil] at h1
+  simp only [loc, hempty, hd, List.count_append, List.count_nil] at h1
   by_cases ha : 0 < s.workC.count m
   · exact Or.inl (List.count_pos_iff.mp ha)
   · by_cases hb : 0 < (busyList s.workers).count m
@@ -266,11 +303,11 @@ theorem c20_drain_waits_for_barrier (w q : Nat) (s : Sys) (hr : Reachable w q s)
 
 /-- Termination measure: `mu` strictly decreases with EVERY action other than an arrival (so in
 particular with every action after `drainStart`, where arrivals are disabled). -/
-theorem c20_measure_decreases (s s' : Sys) (a : Action) (hs : step s a = some s') (ha : ∀ m, a ≠ .arrive m) :
+theorem c20_measure_decreases (s s' : Sys) (a : Action) (hs : step s a = some s') (ha : ∀ j m, a ≠ .arrive j m) :
     mu s' < mu s :=
   mu_decreases hs ha
 
-/-- Once the broker no longer has the subscription (after `drainStart`) every run, under every
+/-- Once the broker no longer has the subscriptions (after `drainStart`) every run, under every
 schedule, has at most `mu s` steps. -/
 theorem c20_runs_bounded (s : Sys) (hdr : s.active = false)
     (as : List Action) (s' : Sys) (h : run s as = some s') : as.length + mu s' ≤ mu s := by
@@ -280,8 +317,12 @@ theorem c20_runs_bounded (s : Sys) (hdr : s.active = false)
     simp only [run] at h
     split at h
     · rename_i s1 h1
-      have hna : ∀ m, a ≠ .arrive m := by
-        intro m hm; subst hm; simp [step, hdr] at h1
+      have hna : ∀ j m, a ≠ .arrive j m := by
+        intro j m hm; subst hm
+        simp only [step] at h1
+        split at h1
+        · simp [hdr] at h1
+        · cases h1
       have hdec := mu_decreases h1 hna
       have := ih s1 ((step_mono h1).2.2.2.2 hdr) h
       simp only [List.length_cons]; omega
@@ -289,26 +330,26 @@ theorem c20_runs_bounded (s : Sys) (hdr : s.active = false)
 
 /-- Every maximal run ends with `Serve` and `Stop` returned: a state reached after `Stop` was
 called in which no action of the system is enabled has both returned. -/
-theorem c20_maximal_runs_end (w q : Nat) (hw : 1 ≤ w) (s : Sys) (hr : Reachable w q s)
+theorem c20_maximal_runs_end (w q k : Nat) (hw : 1 ≤ w) (s : Sys) (hr : Reachable w q k s)
     (hcalled : s.stop ≠ .notCalled) (hmax : ∀ a, a.isSystem = true → step s a = none) :
     s.serve = .returned ∧ s.stop = .returned := by
   by_cases hnot : s.serve = .returned ∧ s.stop = .returned
   · exact hnot
-  · obtain ⟨a, ha, hen⟩ := c20_no_deadlock w q hw s hr hcalled hnot
+  · obtain ⟨a, ha, hen⟩ := c20_no_deadlock w q k hw s hr hcalled hnot
     rw [hmax a ha] at hen; cases hen
 
 /-- From every reachable state after `Stop` was called there IS a run of the system alone at whose
 end `Serve` and `Stop` have returned. -/
-theorem c20_can_finish (w q : Nat) (hw : 1 ≤ w) (s : Sys) (hr : Reachable w q s) (hcalled : s.stop ≠ .notCalled) :
+theorem c20_can_finish (w q k : Nat) (hw : 1 ≤ w) (s : Sys) (hr : Reachable w q k s) (hcalled : s.stop ≠ .notCalled) :
     ∃ as s', (∀ a ∈ as, a.isSystem = true) ∧ run s as = some s' ∧ s'.serve = .returned ∧ s'.stop = .returned := by
   generalize hn : mu s = n
   induction n using Nat.strongRecOn generalizing s with
   | _ n ih =>
     by_cases hnot : s.serve = .returned ∧ s.stop = .returned
     · exact ⟨[], s, by simp, rfl, hnot.1, hnot.2⟩
-    · obtain ⟨a, ha, hen⟩ := c20_no_deadlock w q hw s hr hcalled hnot
+    · obtain ⟨a, ha, hen⟩ := c20_no_deadlock w q k hw s hr hcalled hnot
       obtain ⟨s1, h1⟩ := Option.isSome_iff_exists.mp hen
-      have hna : ∀ m, a ≠ .arrive m := by intro m hm; subst hm; cases ha
+      have hna : ∀ j m, a ≠ .arrive j m := by intro j m hm; subst hm; cases ha
       have hdec := mu_decreases h1 hna
       have hcalled1 : s1.stop ≠ .notCalled := by
         intro h0
@@ -324,83 +365,134 @@ theorem c20_can_finish (w q : Nat) (hw : 1 ≤ w) (s : Sys) (hr : Reachable w q 
         · exact hsys b h
       · simp [run, h1, hrun]
 
+/-- The state the w = 0 configuration gets stuck in. -/
+def w0Deadlock : Sys :=
+  { q := 1, guarded := true, reentrant := false, lastOnly := false, active := false, faulty := false,
+    subs := [⟨[], [], .sending 1⟩], barrier := true, workC := [0], closed := false, workers := [], wmu := none,
+    serve := .barrierWait, stop := .waitResult, arrived := [0, 1], handed := [0, 1], processed := [], replied := [],
+    dropped := [], panicked := false }
+
 /-- Why w ≥ 1 is a hypothesis: with no worker and a queue of length 1, two accepted requests and a
 `Stop` lead to a reachable state in which `Serve` is blocked on the barrier, the handler is
 blocked on the full queue, and no action of the system is enabled: a deadlock. (With w ≥ 1 this
 is impossible: `c20_no_deadlock`.) -/
 theorem c20_w0_counterexample :
-    ∃ s, Reachable 0 1 s ∧ s.stop ≠ .notCalled ∧ s.serve ≠ .returned ∧ ∀ a, a.isSystem = true → step s a = none := by
-  refine ⟨_, ⟨[.arrive 0, .arrive 1, .deliver, .deliver, .cbStart, .handlerEnqueue, .callbackDone, .cbStart,
-    .stopCall, .serveGotQuit, .drainStart, .flushBarrier], rfl⟩, by decide, by decide, ?_⟩
+    ∃ s, Reachable 0 1 1 s ∧ s.stop ≠ .notCalled ∧ s.serve ≠ .returned ∧ ∀ a, a.isSystem = true → step s a = none := by
+  have hrun : run (init 0 1 1) [.arrive 0 0, .arrive 0 1, .deliver 0, .deliver 0, .cbStart 0, .handlerEnqueue 0,
+      .callbackDone 0, .cbStart 0, .stopCall, .serveGotQuit, .drainStart, .flushBarrier] = some w0Deadlock := by rfl
+  refine ⟨w0Deadlock, ⟨_, hrun⟩, by decide, by decide, ?_⟩
   intro a ha
-  cases a <;> first | rfl | (cases ha; done) | simp [step]
+  cases a <;> first
+    | rfl
+    | (cases ha; done)
+    | (rename_i j; cases j <;> simp [step, w0Deadlock])
+    | (rename_i i j; simp [step, w0Deadlock])
 
 /-- The code before fix 2a98083 (`guarded = false`: `close(workC)` without `sendMu`): a connection
 fault makes the drain fail while the handler is blocked on the queue; Serve closes `workC` under
 it and the handler's send panics. (With `guarded = true` the panic flag is never set:
 `c20_no_send_on_closed`.) -/
 theorem c20_unguarded_close_counterexample :
-    ∃ s, ReachableP false false 1 0 s ∧ s.panicked = true :=
-  ⟨_, ⟨[.arrive 0, .arrive 1, .deliver, .deliver, .cbStart, .workerTake 0, .callbackDone, .cbStart,
-    .fault, .stopCall, .serveGotQuit, .drainFail, .sendResult, .closeWorkC, .handlerEnqueue], rfl⟩, rfl⟩
+    ∃ s, ReachableP false false false 1 0 1 s ∧ s.panicked = true :=
+  ⟨_, ⟨[.arrive 0 0, .arrive 0 1, .deliver 0, .deliver 0, .cbStart 0, .workerHandoff 0 0, .callbackDone 0, .cbStart 0,
+    .fault, .stopCall, .serveGotQuit, .drainFail, .sendResult, .closeWorkC, .handlerEnqueue 0], rfl⟩, rfl⟩
 
 /-- The state the re-locking mutation gets stuck in (see `c20_reentrant_lock_counterexample`). -/
 def reentrantDeadlock : Sys :=
-  { q := 1, guarded := true, reentrant := true, active := false, faulty := false, inflight := [],
-    pending := [], cb := .idle, barrier := false, workC := [], closed := true, workers := [.overflow 0],
+  { q := 1, guarded := true, reentrant := true, lastOnly := false, active := false, faulty := false,
+    subs := [⟨[], [], .idle⟩], barrier := false, workC := [], closed := true, workers := [.overflow 0],
     wmu := some 0, serve := .closedQ, stop := .returned, arrived := [0], handed := [0], processed := [0],
     replied := [], dropped := [], panicked := false }
 
 /-- A mutation of the code (`reentrant = true`: `trapError` answers an oversize reply through the
 LOCKING `SendError` while `SendReply` holds the write mutex): one oversize reply and a `Stop` lead
 to a reachable state in which the worker waits for the mutex it holds, `Serve` waits for the
-worker, and no action of the system is enabled. (The code has `reentrant = false`, regenerated
-expectations aside this is what `c20_write_mutex_never_wedges` and `c20_no_deadlock` exclude.) -/
+worker, and no action of the system is enabled. (The code has `reentrant = false`; this is what
+`c20_write_mutex_never_wedges` and `c20_no_deadlock` exclude.) -/
 theorem c20_reentrant_lock_counterexample :
-    ∃ s, ReachableP true true 1 1 s ∧ s.stop ≠ .notCalled ∧ s.serve ≠ .returned ∧
+    ∃ s, ReachableP true true false 1 1 1 s ∧ s.stop ≠ .notCalled ∧ s.serve ≠ .returned ∧
       ∀ a, a.isSystem = true → step s a = none := by
-  have hrun : run (initP true true 1 1) [.arrive 0, .deliver, .cbStart, .handlerEnqueue, .callbackDone, .workerTake 0,
-      .workerHandlerDone 0, .workerLock 0, .workerOverflow 0, .stopCall, .serveGotQuit, .drainStart, .flushBarrier,
-      .barrierFires, .sendResult, .stopReturn, .closeWorkC] = some reentrantDeadlock := by rfl
+  have hrun : run (initP true true false 1 1 1) [.arrive 0 0, .deliver 0, .cbStart 0, .handlerEnqueue 0, .callbackDone 0,
+      .workerTake 0, .workerHandlerDone 0, .workerLock 0, .workerOverflow 0, .stopCall, .serveGotQuit, .drainStart,
+      .flushBarrier, .barrierFires, .sendResult, .stopReturn, .closeWorkC] = some reentrantDeadlock := by rfl
   refine ⟨reentrantDeadlock, ⟨_, hrun⟩, by decide, by decide, ?_⟩
   intro a ha
-  cases a <;> first | rfl | (cases ha; done) | (rename_i i; cases i <;> simp [step, reentrantDeadlock])
+  cases a <;> first
+    | rfl
+    | (cases ha; done)
+    | (rename_i i j; cases i <;> cases j <;> simp [step, reentrantDeadlock]; done)
+    | (rename_i i; cases i <;> simp [step, reentrantDeadlock])
+
+/-- A mutation of the code (`lastOnly = true`: the drain waits for the LAST subject's subscription
+only — every waiter watching the same loop variable): two subjects, a backlog on the first one, the
+last one idle; the "barrier" fires at once, `Stop` returns nil WITHOUT any fault, Serve closes the
+queue, and a request the broker had accepted before `Stop` was called is turned away — never
+processed, never answered — in a reachable state. (With `lastOnly = false` this cannot happen:
+`c20_drain_waits_for_barrier`, `c20_exactly_once`.) -/
+theorem c20_last_subject_only_counterexample :
+    ∃ s₁ s, run (initP true false true 1 1 2) [.arrive 0 0, .arrive 0 1, .arrive 0 2, .deliver 0, .deliver 0, .deliver 0,
+        .cbStart 0, .handlerEnqueue 0, .callbackDone 0, .cbStart 0] = some s₁ ∧ 2 ∈ s₁.arrived ∧
+      run s₁ [.stopCall, .serveGotQuit, .drainStart, .flushBarrier, .barrierFires, .sendResult, .stopReturn,
+        .workerTake 0, .handlerEnqueue 0, .callbackDone 0, .closeWorkC, .cbStart 0,
+        .workerHandlerDone 0, .workerLock 0, .workerWriteOk 0, .workerUnlock 0, .workerReply 0,
+        .workerTake 0, .workerHandlerDone 0, .workerLock 0, .workerWriteOk 0, .workerUnlock 0, .workerReply 0,
+        .workerExit 0, .serveReturn] = some s ∧
+      s.faulty = false ∧ s.serve = .returned ∧ s.stop = .returned ∧ s.dropped = [2] ∧ s.processed = [0, 1] :=
+  ⟨_, _, rfl, by decide, rfl, rfl, rfl, rfl, rfl, rfl⟩
 
 /-! Non-vacuity: concrete runs with the queue shorter than the burst. -/
 
-/-- w = 1, q = 1, a burst of three requests, `Stop` called while the handler is blocked on the full
-queue with a third request still pending in nats.go: the run ends with `Serve` and `Stop` returned
-and all three requests processed and replied (the second one through the oversize path). -/
-example : ∃ s, run (init 1 1)
-    [.arrive 0, .arrive 1, .arrive 2, .deliver, .deliver, .deliver, .cbStart, .handlerEnqueue, .callbackDone,
-     .workerTake 0, .cbStart, .handlerEnqueue, .callbackDone, .cbStart,      -- worker busy with 0, queue = [1], handler blocked with 2
+/-- w = 1, q = 1, ONE subject, a burst of three requests, `Stop` called while the handler is blocked on
+the full queue with a third request still pending in nats.go: the run ends with `Serve` and `Stop`
+returned and all three requests processed and replied (the second one through the oversize path). -/
+example : ∃ s, run (init 1 1 1)
+    [.arrive 0 0, .arrive 0 1, .arrive 0 2, .deliver 0, .deliver 0, .deliver 0, .cbStart 0, .handlerEnqueue 0, .callbackDone 0,
+     .workerTake 0, .cbStart 0, .handlerEnqueue 0, .callbackDone 0, .cbStart 0,      -- worker busy with 0, queue = [1], handler blocked with 2
      .stopCall, .serveGotQuit, .drainStart, .flushBarrier,
      .workerHandlerDone 0, .workerLock 0, .workerWriteOk 0, .workerUnlock 0, .workerReply 0,
-     .workerTake 0, .handlerEnqueue, .callbackDone, .barrierFires, .sendResult, .stopReturn, .closeWorkC,
+     .workerTake 0, .handlerEnqueue 0, .callbackDone 0, .barrierFires, .sendResult, .stopReturn, .closeWorkC,
      .workerHandlerDone 0, .workerLock 0, .workerOverflow 0, .workerErrReply 0, .workerUnlock 0, .workerReply 0,
      .workerTake 0, .workerHandlerDone 0, .workerLock 0, .workerWriteOk 0, .workerUnlock 0, .workerReply 0,
      .workerExit 0, .serveReturn] = some s ∧
     s.serve = .returned ∧ s.stop = .returned ∧ s.processed = [0, 1, 2] ∧ s.replied = [0, 1, 2] :=
   ⟨_, rfl, rfl, rfl, rfl, rfl⟩
 
+/-- TWO subjects with the backlog on the first: two handlers run concurrently (one blocked on the full
+queue, one whose request goes straight through), the barrier does NOT fire while the first
+subscription still has a request pending although the last one is quiet, and it does once every
+subscription is. -/
+example : ∃ s, run (init 1 1 2)
+    [.arrive 0 0, .arrive 0 1, .arrive 0 2, .arrive 1 3, .deliver 0, .deliver 0, .deliver 0, .deliver 1,
+     .cbStart 0, .cbStart 1, .handlerEnqueue 1, .callbackDone 1,       -- both handlers inside; subject 1's request is queued
+     .stopCall, .serveGotQuit, .drainStart, .flushBarrier] = some s ∧
+    step s .barrierFires = none ∧ step s (.handlerEnqueue 0) = none ∧
+    ∃ s', run s [.workerTake 0, .handlerEnqueue 0, .callbackDone 0, .cbStart 0] = some s' ∧
+      step s' .barrierFires = none ∧
+      ∃ s'', run s' [.workerHandlerDone 0, .workerLock 0, .workerWriteOk 0, .workerUnlock 0, .workerReply 0, .workerTake 0,
+        .handlerEnqueue 0, .callbackDone 0, .cbStart 0] = some s'' ∧ (step s'' .barrierFires).isSome = false ∧
+        ∃ s3, run s'' [.workerHandlerDone 0, .workerLock 0, .workerWriteOk 0, .workerUnlock 0, .workerReply 0, .workerTake 0,
+          .handlerEnqueue 0, .callbackDone 0] = some s3 ∧ (step s3 .barrierFires).isSome = true :=
+  ⟨_, rfl, rfl, rfl, _, rfl, rfl, _, rfl, rfl, _, rfl, rfl⟩
+
 /-- A connection fault while the handler is blocked (q = 0, the worker busy): the drain fails, Serve
 waits for the handler to get out of its send before it closes the queue, a request whose callback
 comes later is turned away; everything the server had taken over is processed exactly once. -/
-example : ∃ s, run (init 1 0)
-    [.arrive 0, .arrive 1, .arrive 2, .deliver, .deliver, .deliver, .cbStart, .workerTake 0, .callbackDone, .cbStart,
-     .fault, .stopCall, .serveGotQuit, .drainFail, .sendResult, .stopReturn] = some s ∧
+example : ∃ s, run (init 1 0 1)
+    [.arrive 0 0, .arrive 0 1, .arrive 0 2, .deliver 0, .deliver 0, .deliver 0, .cbStart 0, .workerHandoff 0 0, .callbackDone 0,
+     .cbStart 0, .fault, .stopCall, .serveGotQuit, .drainFail, .sendResult, .stopReturn] = some s ∧
     step s .closeWorkC = none ∧
-    ∃ s', run s [.workerHandlerDone 0, .workerLock 0, .workerWriteOk 0, .workerUnlock 0, .workerReply 0, .workerTake 0,
-      .callbackDone, .closeWorkC, .cbStart, .workerHandlerDone 0, .workerLock 0, .workerWriteOk 0, .workerUnlock 0,
+    ∃ s', run s [.workerHandlerDone 0, .workerLock 0, .workerWriteOk 0, .workerUnlock 0, .workerReply 0, .workerHandoff 0 0,
+      .callbackDone 0, .closeWorkC, .cbStart 0, .workerHandlerDone 0, .workerLock 0, .workerWriteOk 0, .workerUnlock 0,
       .workerReply 0, .workerExit 0, .serveReturn] = some s' ∧
       s'.serve = .returned ∧ s'.handed = [0, 1] ∧ s'.replied = [0, 1] ∧ s'.dropped = [2] ∧ s'.panicked = false :=
   ⟨_, rfl, rfl, _, rfl, rfl, rfl, rfl, rfl, rfl⟩
 
 /-- Two workers queueing for the write mutex: the second one's `Lock` is not enabled while the first
 holds it, and is after the first has unlocked. -/
-example : ∃ s, run (init 2 2)
-    [.arrive 0, .arrive 1, .deliver, .deliver, .cbStart, .handlerEnqueue, .callbackDone, .cbStart, .handlerEnqueue,
-     .callbackDone, .workerTake 0, .workerTake 1, .workerHandlerDone 0, .workerHandlerDone 1, .workerLock 1] = some s ∧
+example : ∃ s, run (init 2 2 1)
+    [.arrive 0 0, .arrive 0 1, .deliver 0, .deliver 0, .cbStart 0, .handlerEnqueue 0, .callbackDone 0, .cbStart 0,
+     .handlerEnqueue 0, .callbackDone 0, .workerTake 0, .workerTake 1, .workerHandlerDone 0, .workerHandlerDone 1,
+     .workerLock 1] = some s ∧
     step s (.workerLock 0) = none ∧
     ∃ s', run s [.workerWriteOk 1, .workerUnlock 1] = some s' ∧ (step s' (.workerLock 0)).isSome = true :=
   ⟨_, rfl, rfl, _, rfl, rfl⟩
